@@ -10,18 +10,25 @@ import vlib
 
 PROPS = ["C05", "C09"]
 
-# per property and tier: list of (cfg, mode)
+# per property and tier: list of (cfg, mode, sample); sample = number of transitions taken as targets
+# of the walks (None = every transition of the bounded graph is executed)
 CONFIGS = {
-    "C05": {"quick": [("SpeakerMC_bgp.cfg", "edges"), ("SpeakerMC_bgp2.cfg", "edges"), ("SpeakerMC_bgp_sim.cfg", "sim")],
-            "thorough": [("SpeakerMC_bgp.cfg", "edges"), ("SpeakerMC_bgp2.cfg", "edges"), ("SpeakerMC_bgp3.cfg", "edges"),
-                         ("SpeakerMC_bgp_sim.cfg", "sim")]},
-    "C09": {"quick": [("SpeakerMC_conv.cfg", "edges"), ("SpeakerMC_convml.cfg", "edges"), ("SpeakerMC_convdual.cfg", "edges"),
-                      ("SpeakerMC_conv_sim.cfg", "sim")],
-            "thorough": [("SpeakerMC_conv.cfg", "edges"), ("SpeakerMC_convml.cfg", "edges"), ("SpeakerMC_convdual.cfg", "edges"),
-                         ("SpeakerMC_conv3.cfg", "edges"),
-                         ("SpeakerMC_conv_sim.cfg", "sim"), ("SpeakerMC_convml_sim.cfg", "sim")]},
+    "C05": {"quick": [("SpeakerMC_bgp.cfg", "edges", 5000), ("SpeakerMC_bgp2.cfg", "edges", 5000),
+                      ("SpeakerMC_bgpeq.cfg", "edges", 5000), ("SpeakerMC_bgpflap.cfg", "edges", None),
+                      ("SpeakerMC_bgpfault.cfg", "edges", 6000), ("SpeakerMC_bgp_sim.cfg", "sim", None)],
+            "thorough": [("SpeakerMC_bgp.cfg", "edges", None), ("SpeakerMC_bgp2.cfg", "edges", None),
+                         ("SpeakerMC_bgpeq.cfg", "edges", None), ("SpeakerMC_bgpflap.cfg", "edges", None),
+                         ("SpeakerMC_bgpfault.cfg", "edges", None), ("SpeakerMC_bgp3.cfg", "edges", 100000),
+                         ("SpeakerMC_bgp_sim.cfg", "sim", None)]},
+    "C09": {"quick": [("SpeakerMC_conv.cfg", "edges", 5000), ("SpeakerMC_convml.cfg", "edges", 4000),
+                      ("SpeakerMC_convdual.cfg", "edges", 4000), ("SpeakerMC_convflap.cfg", "edges", None),
+                      ("SpeakerMC_convign.cfg", "edges", None), ("SpeakerMC_conv_sim.cfg", "sim", None)],
+            "thorough": [("SpeakerMC_conv.cfg", "edges", None), ("SpeakerMC_convml.cfg", "edges", None),
+                         ("SpeakerMC_convdual.cfg", "edges", None), ("SpeakerMC_convflap.cfg", "edges", None),
+                         ("SpeakerMC_convign.cfg", "edges", None), ("SpeakerMC_conv3.cfg", "edges", 100000),
+                         ("SpeakerMC_conv_sim.cfg", "sim", None), ("SpeakerMC_convml_sim.cfg", "sim", None),
+                         ("SpeakerMC_convign_sim.cfg", "sim", None)]},
 }
-SAMPLE = {"quick": {"C05": 9000, "C09": 7000}, "thorough": {"C05": 120000, "C09": 120000}}
 SIM = {"quick": {"num": 250, "depth": 30}, "thorough": {"num": 3000, "depth": 40}}
 
 
@@ -46,7 +53,7 @@ def catalog_dump(chk):
 
 def is_initial(st):
     m = st["mem"]
-    return (not st["gate"] and st["cfgQ"] and not st["reload"] and sorted(st["nodeQ"]) == sorted(st["cl"]["nodes"])
+    return (st["nfault"] == 0 and not m["fs"] and not m["fset"] and not st["gate"] and st["cfgQ"] and not st["reload"] and sorted(st["nodeQ"]) == sorted(st["cl"]["nodes"])
             and m["cfg"].get("null") and m["rcfg"].get("null") and all(v.get("null") for v in m["seen"].values())
             and sorted(st["svcQ"]) == sorted(s for s, v in st["cl"]["svcs"].items() if not v.get("null")))
 
@@ -283,8 +290,11 @@ def signature(name, walk_obs, k):
     if name == "C05.ReportedPeers":
         up = {p for p, v in o["peers"].items() if v["up"]}
         ghost = any(p not in up for l in o["rep"].values() for p in l)
-        return "%s|kind=%s|q=%s" % (name, "reports-peer-without-session" if ghost else "other", str(bool(o["q"])).lower())
-    return "%s|op=%s" % (name, o["op"])
+        fault = "set" if o.get("setFailed") else ("start" if o.get("startFailedN") else "none")
+        return "%s|kind=%s|q=%s|fault=%s" % (name, "reports-peer-without-session" if ghost else "other",
+                                             str(bool(o["q"])).lower(), fault)
+    fault = "set" if o.get("setFailed") else ("start" if o.get("startFailedN") else "none")
+    return "%s|op=%s|fault=%s" % (name, o["op"], fault)
 
 
 def classify(fails_of_line):
@@ -376,7 +386,7 @@ def slim(o):
             if k in o}
 
 
-def run_cfg(chk, cfg, mode, cat_path):
+def run_cfg(chk, cfg, mode, sample, cat_path):
     if mode == "sim":
         p = SIM[chk.tier]
         steps, init, res = simulate(chk, cfg, p["num"], p["depth"], chk.seed)
@@ -385,7 +395,6 @@ def run_cfg(chk, cfg, mode, cat_path):
         chk.cov["model_runs"].append({"cfg": cfg, "simulated_walks": len(steps), "steps": nedges, "wall_s": round(res.wall, 1)})
     else:
         edges, init, initkey, res = generate(chk, cfg)
-        sample = SAMPLE[chk.tier][chk.prop]
         walks, left = cover_walks(edges, initkey, max_len=40, seed=chk.seed, sample=sample)
         steps = [[edges[i][1] for i in w] for w in walks]
         inits = [init] * len(walks)
@@ -429,8 +438,8 @@ def run_cfg(chk, cfg, mode, cat_path):
 
 def run(chk):
     cat_path = catalog_dump(chk)
-    for cfg, mode in CONFIGS[chk.prop][chk.tier]:
-        run_cfg(chk, cfg, mode, cat_path)
+    for cfg, mode, sample in CONFIGS[chk.prop][chk.tier]:
+        run_cfg(chk, cfg, mode, sample, cat_path)
     if chk.cov["drift"]:
         print("DRIFT: %d observation(s) where the old speaker, the fresh speaker actually started and the specification's "
               "Fresh disagree in a way that is not a violation of %s (see evidence notes)" % (chk.cov["drift"], chk.prop))
